@@ -73,7 +73,7 @@ def _run_case_files(cfg, dv, model, work, ops, tag):
 def run(cfg, tier, seed):
     rep = lib.Report(cfg.prop, tier, seed, "proof")
     rep.assumptions = list(cfg.assumptions)
-    work = os.path.join(lib.ROOT, "work", cfg.prop)
+    work = os.path.join(lib.OUT, "work", cfg.prop)
     shutil.rmtree(work, ignore_errors=True)
     os.makedirs(work, exist_ok=True)
     cov = rep.cov
